@@ -30,6 +30,7 @@
   overflow handling), the theorems hold for every rounding with the stated hypotheses.
 -/
 import QKV.Model.Basic
+import QKV.Model.FixedQ
 namespace QKV.QNoise
 
 /-! ## exact mixing expressions (the two return forms + quantized_linear's) -/
@@ -298,5 +299,31 @@ def mixLinearExactB (rd : Rnd) (s q : Rat) (st : Store) : Bool :=
   let f := st.asF rd
   decide (rd.r32 (q - s) = q - s) && decide (rd.r32 (f * (q - s)) = f * (q - s))
     && decide (rd.r32 (s + f * (q - s)) = s + f * (q - s))
+
+/-! ## quantized_relu with the knob, in full  (strengthening round, seed C07-6)
+
+  `quantized_relu.__call__` (`use_sigmoid = 0`): `x_u` (`ReluCfg.act`, the activation the noise is
+  mixed with: leaky relu clipped by the quantized maximum, or by `relu_upper_bound`), `xq`
+  (`qrelu`), then — in this order —
+      if self.relu_upper_bound and not self.is_quantized_clip: xq = where(xq <= ub, xq, ub)
+      return mix(x_u, xq, qnoise_factor)
+  i.e. the bound is applied to the QUANTIZED value before the mix (`qreluU`), never to the mixed
+  result.  `FixedQ` (shared with C01/C02, unchanged here) supplies `ReluCfg`, `act`, `qrelu`,
+  `qreluU`, `clampTo`. -/
+
+/-- `quantized_relu(bits, integer, negative_slope=2^-k, relu_upper_bound, is_quantized_clip,
+    qnoise_factor=f, use_ste)(x)` -/
+def reluNoise (t : Tie) (c : ReluCfg) (f : Rat) (useSte : Bool) (x : Rat) : Rat :=
+  mix (c.act x) (qreluU t c x) f useSte
+
+/-- NOT the code: the bound applied once, to the mixed result (what a "clip once, on the output"
+    rewrite computes).  Kept for the counterexample that the order matters. -/
+def reluNoiseClampAfter (t : Tie) (c : ReluCfg) (f : Rat) (useSte : Bool) (x : Rat) : Rat :=
+  clampTo c.clamp (mix (c.act x) (qrelu t c x) f useSte)
+
+/-- float32 evaluation of the call on float32 inputs for which `x_u` and `xq` are computed without
+    rounding (dyadic `x`; the driver's inputs) -/
+def reluNoiseF (rd : Rnd) (t : Tie) (c : ReluCfg) (st : Store) (useSte : Bool) (x : Rat) : Rat :=
+  mixF rd (c.act x) (qreluU t c x) st useSte
 
 end QKV.QNoise
